@@ -94,13 +94,7 @@ var slowPathOnly = map[string][]string{
 var normalizerFns = map[string]bool{"normalizeDocument": true, "normCtx.normalizeField": true, "normCtx.normalizeSelectionSet": true, "normCtx.tryExtract": true}
 
 func fnKey(fn *ssa.Function) string {
-	for fn.Parent() != nil {
-		fn = fn.Parent()
-	}
-	if recv := fn.Signature.Recv(); recv != nil {
-		return core.TypeName(recv.Type()) + "." + core.N(fn)
-	}
-	return core.N(fn)
+	return core.FuncKey(fn)
 }
 
 func c07Writes(c *core.Ctx, r *core.Reporter) {
